@@ -619,7 +619,7 @@ fn shutdown_case(out: &mut Out, r: &mut Rng, nworkers: usize, client_stats: bool
     let addr = sp.addr();
     let stop = Arc::new(AtomicBool::new(false));
     let mut handles = vec![];
-    let nthreads = match regime { "idle" => 0, "load" => 4, "load-stats" => 4 * nworkers.max(1), "junk" => 2 * nworkers.max(1), _ => 6 };
+    let nthreads = match regime { "idle" => 0, "early" => 0, "load" => 4, "load-stats" => 4 * nworkers.max(1), "junk" => 2 * nworkers.max(1), _ => 6 };
     for t in 0..nthreads {
         let stop = stop.clone();
         let flood = regime == "flood";
@@ -683,9 +683,18 @@ fn shutdown_case(out: &mut Out, r: &mut Rng, nworkers: usize, client_stats: bool
             pairs
         }));
     }
-    std::thread::sleep(Duration::from_millis(delay_ms));
-    let live = sp.live_workers();
-    sp.signal(sig);
+    let live;
+    if regime == "early" {
+        // "once the server is serving": the FIRST reply has just arrived (ServerProc::start returns on it) while main may
+        // still be spawning the remaining workers and the reporter (seeded change C19-r6 installed the signal handler
+        // only after that)
+        sp.signal(sig);
+        live = sp.live_workers();
+    } else {
+        std::thread::sleep(Duration::from_millis(delay_ms));
+        live = sp.live_workers();
+        sp.signal(sig);
+    }
     let exit = sp.wait_exit(Duration::from_secs(8));
     stop.store(true, Ordering::Relaxed);
     let mut pairs: Vec<(Vec<u8>, Vec<u8>)> = vec![];
@@ -731,6 +740,12 @@ pub fn run_shutdown(ctx: &Ctx) {
                 shutdown_case(&mut out, &mut r, w, stats, sig, regime, d + 30);
             }
         }
+    }
+    // a signal at the very first reply, while a many-worker server is still starting up
+    for (k, &w) in [16usize, 16, 16, 16, 4, 8].iter().enumerate() {
+        if !ctx.thorough && k >= 4 { continue; }
+        let sig = if k % 2 == 0 { libc::SIGTERM } else { libc::SIGINT };
+        shutdown_case(&mut out, &mut r, w, k % 4 < 2, sig, "early", k as u64);
     }
     // workers that have only ever seen invalid datagrams (requests recorded, nothing sent)
     for (k, &w) in [1usize, 4, 2, 16].iter().enumerate() {
